@@ -172,7 +172,7 @@ class Ctx:
 
 class ProgramGen:
     def __init__(self, seed, std="f2003", size=1.0, hostile=True, feature_bias=None,
-                 max_units=3, defined_ops=True, bare_main_multi=False):
+                 max_units=3, defined_ops=True, bare_main_multi=True):
         self.r = random.Random(seed)
         self.std = std
         self.size = size
